@@ -23,6 +23,6 @@ Extraction "model.ml"
   ok_choose_index ok_gen_range ok_ascii ok_bytes
   contract_int contract_float contract_seq contract_memo contract_post
   applies_int applies_float applies_seq applies_memo int_boundaries long_boundaries
-  heap_init heap_step has_cycle
+  heap_init heap_step has_cycle step_mut release
   witness_bytes occurs default_cfg driver_emitted flag_ok row
   cli_config default_min default_max default_rate default_samples py_new py_set_opcode_range action_run.
